@@ -179,7 +179,11 @@ def _grid_run(profile, v, props):
     sc = PROFILES[profile](v)
     if not simh.feasible(sc):
         return None, False                      # outside every property's pre-condition: skipped
-    res = simh.run(sc)
+    if PIN.get('horizon'):
+        # fixed-horizon run through the public API (start(runtime=a) [, resume(until=b)]), beyond completion
+        res = simh.run_horizon(sc, PIN['horizon'])
+    else:
+        res = simh.run(sc)
     return simh.first_tag(res, props), res.outcome == 'finished'
 
 
